@@ -65,17 +65,19 @@ ALLK = ["enum", "struct", "union", "exception", "i32", "string", "list", "map"]
 
 # each entry is one TLC run: (plans, with the hand-written programs, also check the denotation table against the definitions)
 TIERS = {
+    # ~3.3k cases (base programs + permutations)
     "quick": [
         ([plan(4, ["std"], 2, ["enum"], "main", 1, "rev"),
           plan(3, ["same23", "dotted"], 2, ["enum", "struct"], "main", 1, "rev"),
-          plan(2, ["std"], 4, ALLK, "all", 1, "light")], True, False),
+          plan(2, ["std"], 4, ["enum", "union", "exception", "i32", "list", "map"], "all", 1, "light")], True, False),
     ],
+    # ~23k cases
     "thorough": [
-        ([plan(4, ["std"], 3, ["enum", "struct"], "main", 2, "light")], True, True),
-        ([plan(4, ["same23", "same34", "dotted"], 2, ["enum", "union"], "main", 2, "rev")], False, False),
-        ([plan(3, ["std", "same23"], 4, ALLK, "all", 3, "light")], False, False),
-        ([plan(4, ["std"], 4, ["enum"], "main", 1, "rev"),
-          plan(2, ["std"], 3, ["enum", "exception", "map"], "all", 8, "full")], False, False),
+        ([plan(4, ["std"], 3, ["enum", "struct"], "main", 1, "light")], True, True),
+        ([plan(4, ["same23", "same34", "dotted"], 2, ["enum"], "main", 1, "rev"),
+          plan(4, ["std"], 4, ["enum"], "main", 1, "rev")], False, False),
+        ([plan(3, ["std"], 4, ALLK, "all", 1, "light"),
+          plan(2, ["std"], 3, ["enum", "exception", "map"], "all", 2, "full")], False, False),
     ],
 }
 
@@ -192,6 +194,10 @@ def judge(prog, exp, obs):
             else:
                 kind = "reference"
             bad.append(("type:" + kind, key, rec, al))
+        elif "dr" in n and o.get("deref") is not None:
+            d = o["deref"]
+            if d.get("err") or {"file": d["file"], "name": d["name"], "cat": d["cat"]} not in n["dr"]:
+                bad.append(("deref:" + ("error" if d.get("err") else "wrong-definition"), key, d, n["dr"]))
     for n in exp["ids"]:
         key = n["key"]
         seen.add(key)
@@ -248,6 +254,25 @@ def judge(prog, exp, obs):
             if bool(o["used"]) != want:
                 bad.append(("used:" + ("not-marked" if want else "marked-but-unreferenced"),
                             "%s|inc:%d" % (f["path"], j - 1), o["used"], {"must": u["must"], "may": u["may"], "through": through}))
+    return bad
+
+
+def side_checks(prog, exp, obs):
+    """grown beyond the statement's clauses: Name2Category, union members optional, resolving twice changes nothing"""
+    bad = []
+    for fi, f in enumerate(prog["files"]):
+        want = exp.get("n2c", [None] * len(prog["files"]))[fi]
+        if want is None or f["path"] not in obs.get("n2c", {}):
+            continue
+        if isinstance(want, list):      # an empty function is serialized as []
+            want = {}
+        if obs["n2c"][f["path"]] != want:
+            bad.append(("n2c:name-to-category", f["path"], obs["n2c"][f["path"]], want))
+    for k, v in (obs.get("reqs") or {}).items():
+        if v != "Optional":
+            bad.append(("union:member-not-optional", k, v, "Optional"))
+    if obs.get("again") not in (None, "same"):
+        bad.append(("again:second-ResolveSymbols-call", prog["files"][0]["path"], obs.get("again"), "same"))
     return bad
 
 
@@ -346,7 +371,9 @@ def trace_row(prog, o):
     types, ids, exts, used = {}, {}, {}, {}
     for key, n in o["nodes"].items():
         if n["k"] == "type":
-            types[key] = {"cat": n["cat"], "td": n["td"], "ref": ref_of(n)}
+            d = n.get("deref") or {}
+            types[key] = {"cat": n["cat"], "td": n["td"], "ref": ref_of(n),
+                          "dr": {"file": d.get("file", ""), "name": d.get("name", ""), "cat": "ERR" if d.get("err") else d.get("cat", "")}}
         elif n["k"] == "value":
             if n.get("extra") is not None:
                 ids[key] = n["extra"]
@@ -364,7 +391,7 @@ def tlc_validate(ctx, rows, verdicts, tag):
         chunk = rows[off:off + CH]
         f = ctx.path("traces-%s-%d.ndjson" % (tag, off))
         vlib.write_ndjson(f, chunk)
-        r = ctx.tlc("Resolve", "Trace_Resolve", "Trace_Resolve", files={"traces.ndjson": f}, timeout=3000,
+        r = ctx.tlc("Resolve", "Trace_Resolve", "Trace_Resolve", files={"traces.ndjson": f}, timeout=7000,
                     label="Trace_Resolve[%s+%d]" % (tag, off))
         acc = {int(x[4:]) - 1 for x in r["lines"] if x.startswith("ACC ")}
         os.remove(f)
@@ -437,18 +464,21 @@ def evaluate(ctx, harness, cases, tag, stats, sample_p):
             continue
         stats["resolved-" + status] += 1
         bad = judge(prog, exp, o)
+        bad += side_checks(prog, exp, o)
         mach = [b for b in bad if b[0] in ("missing-node", "unexpected-node")]
         if mach:
-            raise vlib.MachineryError("node keys of the harness and of the spec disagree (%s): %r" % (tag, mach[:3]))
+            raise vlib.MachineryError("node keys of the harness and of the spec disagree (%s): %r in %s" % (
+                tag, mach[:3], json.dumps(casedesc)[:1500]))
         if c["perm"] == "id":
             stats["b_nodes_differ"] += b_vs_real(prog, base["b"], o) if base["b"]["err"] == "" else 0
             bbad = set(base["b"]["bad"])
             rbad = {b[1] for b in bad}
             stats["b_candidates"] += len(bbad)
             stats["b_candidates_reproduced"] += len(bbad & rbad)
-        if (bad and sum(1 for v in tverd if not v) < 60) or rng.random() < sample_p:
+        core_bad = [b for b in bad if b[0].split(":")[0] in ("type", "value", "extends", "used", "deref")]
+        if (core_bad and sum(1 for v in tverd if not v) < 60) or rng.random() < sample_p:
             trows.append(trace_row(prog, o))
-            tverd.append(not bad)
+            tverd.append(not core_bad)
         kinds = {}
         for kind, key, got, al in bad:
             kinds.setdefault(kind, []).append((key, got, al))
@@ -506,9 +536,11 @@ class D(dict):
         return 0
 
 
-def stored_record(o):
+def stored_record(o, chk=None):
     if o is None:
         return None
+    if chk == "C05.deref":
+        return o.get("deref")
     if o["k"] == "value":
         return o.get("extra")
     if o["k"] == "type":
@@ -535,12 +567,20 @@ def replay(ctx, harness, rp):
         again = obs_key(o) != obs_key(obs[1])
     elif o["stage"] == "ok":
         key = rp["observed"]["key"]
-        got = stored_record(o["nodes"].get(key))
+        got = stored_record(o["nodes"].get(key), chk)
         al = rp["expected"]["allowed_by_layer_A"]
         if chk == "C05.value":
             again = got is None or not extra_in(got, al)
         elif chk == "C05.used":
             again = got == rp["observed"]["stored"]
+        elif chk == "C05.deref":
+            again = got is None or bool(got.get("err")) or {"file": got["file"], "name": got["name"], "cat": got["cat"]} not in al
+        elif chk == "C05.n2c":
+            again = o.get("n2c", {}).get(key) != al
+        elif chk == "C05.union":
+            again = (o.get("reqs") or {}).get(key) != "Optional"
+        elif chk == "C05.again":
+            again = o.get("again") != "same"
         else:
             again = got not in al
         print(json.dumps({"key": key, "stored_now": got, "allowed": al}, sort_keys=True))
@@ -573,7 +613,7 @@ def generate(ctx, cfg, mc, label):
                                  "depth": data.get("depth"), "wall_s": 0, "ok": True, "violated": None})
             vlib.log("TLC %s: cached, %d cases" % (label, len(data["cases"])))
             return data["cases"]
-    r = ctx.tlc("Resolve", "MC_ResolveGen", "gen.cfg", files={"gen.cfg": cfg, "MC_ResolveGen.tla": mc}, timeout=3300, label=label)
+    r = ctx.tlc("Resolve", "MC_ResolveGen", "gen.cfg", files={"gen.cfg": cfg, "MC_ResolveGen.tla": mc}, timeout=14000, label=label)
     cases = ctx.tlc_cases(r)
     if cache:
         import gzip
@@ -600,7 +640,7 @@ def run(ctx, args):
                                      "ext_inc": c["perm"] == "id" and any(n["al"] and n["al"][0]["idx"] >= 0 for n in c["exp"]["exts"]),
                                      "enum_inc": c["perm"] == "id" and any(
                                          any(a["isEnum"] and a["idx"] >= 0 for a in n["al"]) for n in c["exp"]["ids"])})
-        evaluate(ctx, harness, cases, "u%d" % k, stats, 0.08 if ctx.tier == "quick" else 0.04)
+        evaluate(ctx, harness, cases, "u%d" % k, stats, 0.05 if ctx.tier == "quick" else 0.03)
         del cases
     vacuity(seen_for_vacuity)
     ex = stats.pop("examples", {})
